@@ -20,7 +20,7 @@ ROOT = os.path.dirname(_HERE)
 
 
 def _cmd(runmod, kind, binname, full):
-    harness = runmod.HARNESS
+    harness = runmod.harness_dir()
     env = runmod.cargo_env()
     feats = ['full'] if full else []
     if kind in ('miri', 'miri-be'):
